@@ -168,6 +168,12 @@ func (m *TargetsDiscovery) Run(ctx context.Context, sdChan <-chan map[string][]*
 }
 
 func (m *TargetsDiscovery) translateTargets(targets map[string][]*targetgroup.Group) map[string][]*SDTargets {
+	// m.config is replaced by ApplyConfig, the job config must be read and the
+	// result must be installed in the same critical section, otherwise the targets
+	// of a job deleted by a concurrent reload would be installed again
+	m.targetsLock.Lock()
+	defer m.targetsLock.Unlock()
+
 	actives := map[string][]*SDTargets{}
 	drops := map[string][]*SDTargets{}
 	for job, tsg := range targets {
@@ -198,9 +204,6 @@ func (m *TargetsDiscovery) translateTargets(targets map[string][]*targetgroup.Gr
 		actives[job] = allActive
 		drops[job] = allDrop
 	}
-
-	m.targetsLock.Lock()
-	defer m.targetsLock.Unlock()
 
 	for job, targets := range actives {
 		m.activeTargets[job] = targets
